@@ -119,6 +119,8 @@ check("C06", "concurrent gets, puts and deletes are linearizable", [
        "<=4 operations on one key"),
     ob("VerifC06_PutVsFlush", "pkg/engine/storage", "one client Put racing FlushMemTables (MemTableSize=1), then a sequential Get: success => visible, error => no effect; data races on the way are reported",
        "2 threads, preemption bound 1", "preemption bound 2", q=P1, t=P2, no_validate=True),
+    ob("VerifC06_TwoWriters", "pkg/engine/storage", "two clients write the same key concurrently (put of its own value, or delete, each) while a third reads it; 1-byte or default memtable: some total order of the three operations consistent with the recorded call/return order explains the read and the final state, both writes are acknowledged, and after a clean close and reopen the key reads as before (the log's order of the two writes is the order clients saw)",
+       "3 threads, key absent or present before, 4 write shapes, preemption bound 1", "the same with the background flush loop running as a fourth thread", q={"preempt": 1, "budget_s": 400}, t={"preempt": 1, "background": ["backgroundFlush"], "budget_s": 1200}, no_validate=True),
     ob("VerifC06_ReadsDuringCompaction", "pkg/engine", "a database restarted on two flushed level-0 tables with the logs retired (every read is served by tables); a compaction cycle (triggered or range) runs while a client reads both keys plainly or by a scan: every read returns the latest write of its key, whatever the interleaving with the cycle's file removals and table-list reload",
        "2 keys (overwrite or delete of the first), 2 cycle kinds x 2 reader kinds, 2 threads, preemption bound 1", "preemption bound 2", q={"preempt": 1, "budget_s": 500}, t={"preempt": 2, "budget_s": 1200}, no_validate=True),
 ], [SIMFS, CLOCK, HASH, BLOOM, RAND, LOG, "Tier B: schedules enumerated exhaustively up to the preemption bound; data symbolic in every schedule"], [">2 clients", "the ticker-driven compaction worker loop (its body, one compaction cycle, is what runs against the reader)", "Close"])
@@ -134,6 +136,8 @@ check("C07", "no race, crash or hang under concurrent use", [
        "36 pairs x 4 variants, preemption bound 1", "preemption bound 2", q=P1, t={"preempt": 2, "budget_s": 600}, no_validate=True, termination=True),
     ob("VerifC07_WritersVsBackgroundFlush", "pkg/engine", "two clients writing twice each into an engine with a 1-byte memtable while the real background flush goroutine runs as a third thread (explicit flush as a fourth in thorough): no race/panic/deadlock, every call returns, last acknowledged writes readable",
        "3 threads, preemption bound 1, background flush loop started as a thread", "4 threads", q={"preempt": 1, "background": ["backgroundFlush"], "budget_s": 500}, t={"preempt": 1, "background": ["backgroundFlush"], "budget_s": 1200}, no_validate=True, termination=True),
+    ob("VerifC07_CloseWithBackgroundFlush", "pkg/engine/storage", "one client writes into an engine with a 1-byte memtable (every write hands a table to the background flush goroutine, which runs as a thread) and then closes it, with nothing but the engine's own background flush in flight: no race/panic/deadlock, Close returns, and the database reopens to its pre-close state",
+       "<=2 puts/deletes over 2 keys, then Close; 2 threads, preemption bound 1, background flush loop started as a thread", "<=3 operations, preemption bound 2", q={"preempt": 1, "background": ["backgroundFlush"], "budget_s": 300}, t={"preempt": 2, "background": ["backgroundFlush"], "budget_s": 900}, no_validate=True, termination=True),
     ob("VerifC07_TombstoneTracker", "pkg/compaction", "TombstoneTracker.AddTombstone || ShouldKeepTombstone", "2 threads, preemption bound 1", q=P1, no_validate=True),
 ], [SIMFS, CLOCK, HASH, BLOOM, RAND, LOG, "Tier B: vector-clock race detector over the interpreter's memory cells; schedules up to the preemption bound"], ["Close concurrent with other calls", "GracefulShutdown of the registry concurrent with itself (a second shutdown panics with close of closed channel, sequentially too; treated like Close)", "the compaction file tracker (all six methods take its one mutex; read, not encoded)", ">2 simultaneous calls"])
 
